@@ -70,7 +70,7 @@ func dump(t *transp.Table, b int) []Lane {
 	return res
 }
 
-var sizes = []int{1, 1, 2, 3, 5, 8, 64, 1000, 1001, 32768}
+var sizes = []int{1, 1, 2, 3, 5, 8, 64, 1000, 1001, 32768, 65537, 65541, 70003, 131077}
 var sigs = []int{0, 1, 2, 3, 4, 5, 6, 0x8000, 0xffff}
 var vals = []int{-10000, -9999, -9990, -9938, -9937, -9936, -9935, -300, 0, 1, 250, 9935, 9936, 9937, 9938, 9950, 9999, 10000}
 var moves = []int{0, 0, 0, 1, 777, 4095 + 4096*5, 32767}
@@ -146,6 +146,13 @@ func main() {
 					val = rng.Intn(20001) - 10000
 				}
 				typ := rng.Intn(3)
+				if rng.Intn(25) == 0 {
+					// the entry a quiescence node stores for a quiet 0 in the first search of a game: all fields zero
+					d, ply, mv, val, typ = 0, rng.Intn(3), 0, 0, 0
+					if rng.Intn(2) == 0 {
+						gen = 0
+					}
+				}
 				t.Insert(h, transp.Gen(gen), Depth(d), Depth(ply), move.Move(mv), Score(val), transp.Type(typ))
 				emit(Ev{Ev: "insert", B: b, Sig: sig, Gen: gen, D: d, Ply: ply, Mv: mv, Val: val, Typ: typ, Bk: dump(t, b), Hash: fmt.Sprint(uint64(h))})
 			case r < 88:
